@@ -289,7 +289,7 @@ impl Property for C09 {
         (2u8..=6, proptest::collection::vec(op_strategy(), 0..=40)).prop_map(|(n, ops)| Scenario { n, ops }).boxed()
     }
     fn cases(tier: Tier) -> u32 {
-        tier.pick(5_000, 60_000)
+        tier.pick(30_000, 150_000)
     }
     fn exhaustive(_tier: Tier, sink: &mut dyn FnMut(Scenario)) -> Vec<String> {
         let mut count = 0u64;
